@@ -407,8 +407,9 @@ def grader_thread_histories(rng, tier, sweep=(), nested=()):
 
 
 # --------------------------------------------------------------------------
-# GATED inputs: they fail on the unchanged tree (reported to the main session, see notes/C05.md); switched on with
-# VERIF_SANDBOXEXEC_GATED=1 only
+# Formerly GATED inputs: they failed on the tree before /repo commit f011cb2 (the finish-claim repair, see
+# notes/C05.md and notes/C14.md); since that fix they are ordinary inputs, on by default (VERIF_SANDBOXEXEC_GATED=0
+# switches them off)
 
 
 def gated_histories(rng, tier):
@@ -432,7 +433,7 @@ def gated_histories(rng, tier):
 
 
 def gated_enabled():
-    return os.environ.get("VERIF_SANDBOXEXEC_GATED", "") not in ("", "0")
+    return os.environ.get("VERIF_SANDBOXEXEC_GATED", "1") not in ("", "0")
 
 
 # --------------------------------------------------------------------------
